@@ -120,3 +120,12 @@ Theorem C18_first_alternative_refuted :
   /\ ctx_get (publish key (dedupe_first [] (describe alts))) "oauthScopes" = Some ["reports:read"].
 Proof. exact first_alternative_refuted. Qed.
 Print Assumptions C18_first_alternative_refuted.
+
+(** The same for all seven wrapper TEMPLATES as translated terms (coq/Gen/Wrappers.v, Model/Tmpl.v): in every text a
+    wrapper template renders, for every operation, no scheme's scopes are stored after the middleware chain was entered or
+    the handler called. *)
+From V Require Import Model.Tmpl Gen.Wrappers Proofs.WrappersOk.
+Theorem C18_every_wrapper_template_publishes_scopes_first : forall name t e,
+  In (name, t) wrappers -> published_first false (render t e) = true.
+Proof. exact every_wrapper_publishes_scopes_first. Qed.
+Print Assumptions C18_every_wrapper_template_publishes_scopes_first.
